@@ -171,6 +171,11 @@ func (r *rwRT) ruleRangeDispatch() {
 			if o.Panicked {
 				continue // rejected with a diagnostic of the rewriter's own
 			}
+			if len(o.Ret) == 1 {
+				if b, known := asBool(o.Ret[0]); known && !b {
+					bad = "the traversal callback answers false for a range statement that is not an element of a statement list: astutil.Apply then stops the whole traversal and every range loop after it stays unlowered (a yield in one of them is rejected)"
+				}
+			}
 			for _, e := range cursorEdits(o.St, mark) {
 				if e.Fn.Name() == "InsertBefore" || e.Fn.Name() == "InsertAfter" {
 					bad = "Cursor." + e.Fn.Name() + " is called for a range statement that is not an element of a statement list (the statement of a label): astutil panics with \"node not contained in slice\" — a labelled range loop in an ordinary closure nested in a generator crashes the compiler"
